@@ -130,7 +130,7 @@ def spaces(tier, seed):
     it = items()
     ph = [i for i, x in enumerate(it) if x[1] == "phrase"]
     pt = [i for i, x in enumerate(it) if x[1] == "pattern"]
-    counts = ["0", "1", "2", "3", "11", "45", "120", "1.5", "2,5"] if T else ["0", "1", "2", "45", "1.5", "2,5"]
+    counts = ["0", "1", "2", "3", "11", "45", "120", "1.5", "2,5", "5.", "7,", "007", "100000", "3.14159"] if T else ["0", "1", "2", "45", "1.5", "2,5", "5.", "7,", "007"]
     return [
         Product("fixed-phrases", {"i": ph, "norm": [True, False], "base": range(len(BASES)) if T else [0, 1]}),
         Product("counted-patterns", {"i": pt, "n": counts, "norm": [True, False], "base": range(len(BASES)) if T else [1]}),
@@ -168,7 +168,8 @@ def run_case(sub, c):
     else:
         got = o[1:]
         kind2 = "exception:" + o[1]
-    ck = "fixed" if kind == "phrase" else ("integer" if c["n"].isdigit() else ("decimal-comma" if "," in c["n"] else "decimal-point"))
+    ck = "fixed" if kind == "phrase" else ("integer" if c["n"].isdigit() else (
+        ("trailing-" if c["n"][-1] in ".," else "decimal-") + ("comma" if "," in c["n"] else "point")))
     return "bad", True, {"cls": {"language": lang, "key": key, "template": tpl, "kind": kind2, "count": ck},
                          "expected": exp, "observed": got,
                          "detail": {"string": text, "canon": canon, "locale": loc or lang, "settings": st}}
